@@ -72,7 +72,7 @@ const c14SelfTest = "selftest-race"
 
 var c14SelfShared int
 
-var c14Bases = []string{"idx-cpq", "idx-ceq", "idx-eq", "idx-eq1", "loop-cp", "loop-cell", "poly-cp", "poly-rel"}
+var c14Bases = []string{"idx-cpq", "idx-ceq", "idx-eq", "idx-eq1", "idx-eqopt", "loop-cp", "loop-cell", "poly-cp", "poly-rel"}
 
 const (
 	c14MaxWorkers    = 64
@@ -134,6 +134,7 @@ type c14Obj struct {
 	poly   *s2.Polygon
 	oloops []*s2.Loop    // per worker, private, index prebuilt
 	opolys []*s2.Polygon // per worker, private, indexes prebuilt
+	opts   *s2.EdgeQueryOptions // idx-eqopt: ONE options value shared by the query objects of all workers
 	spin   bool          // selftest only: misbehave (set on the shared object, not on the reference)
 }
 
@@ -145,7 +146,8 @@ var c14Face0 = s2.CellFromCellID(s2.CellIDFromFace(0))
 func c14Build(base string, n int, built bool) *c14Obj {
 	o := &c14Obj{}
 	switch base {
-	case "idx-cpq", "idx-ceq", "idx-eq", "idx-eq1":
+	case "idx-cpq", "idx-ceq", "idx-eq", "idx-eq1", "idx-eqopt":
+		o.opts = s2.NewClosestEdgeQueryOptions().MaxResults(3)
 		o.idx = s2.NewShapeIndex()
 		o.shapes = []s2.Shape{
 			s2.RegularLoop(c14LL(10, 20), c14Deg(5), 64),
@@ -272,6 +274,23 @@ func c14Query(base string, o *c14Obj, w, rep int) string {
 			b.i(int(res.EdgeID()))
 			b.s(".")
 			b.f(float64(res.Distance()))
+		}
+	case "idx-eqopt":
+		// every worker has its own query object, all created from ONE shared options value (the queries keep a pointer
+		// to it): a query method that writes to the options, even temporarily, is a data race between query objects and
+		// makes a concurrent FindEdges see another call's MaxResults (seeded change C14_6)
+		q := s2.NewClosestEdgeQuery(o.idx, o.opts)
+		t := s2.NewMinDistanceToPointTarget(rp())
+		for j := 0; j < 3; j++ {
+			b.f(float64(q.Distance(t)))
+			res := q.FindEdges(t)
+			b.i(len(res))
+			for _, e := range res {
+				b.s("|")
+				b.i(int(e.ShapeID()))
+				b.s(".")
+				b.i(int(e.EdgeID()))
+			}
 		}
 	case "idx-eq1":
 		// single-result calls without interiors: nothing but the query's own iterator touches the index
